@@ -191,6 +191,7 @@ class Pairs:
         ctx.case(case, nontrivial=any(x != 0 for row in W for x in row))
         ctx.count('pair:' + key); ctx.count('family:' + family); ctx.count('n=%d' % len(W))
         A = G9.npm(W)
+        ctx.take_variants()                    # input-representation layer: either member of the pair may run on another representation
         try:
             a = call(f, A.copy())
         except Exception as e:
@@ -199,6 +200,8 @@ class Pairs:
             b = call(g, A.copy())
         except Exception as e:
             b = e
+        tie_variants(case, since_take=True)
+        self._pv = case.get('_input_variant')           # model() queues the left value of this pair for the model comparison
         if isinstance(a, Exception) or isinstance(b, Exception):
             ctx.fail(key + ':raises', 'left: %r right: %r' % (a if isinstance(a, Exception) else 'ok', b if isinstance(b, Exception) else 'ok'), case)
             return None
@@ -213,6 +216,7 @@ class Pairs:
         ctx.case(case, nontrivial=any(x not in (0, 1) for row in W for x in row))
         ctx.count('ignores:' + fn); ctx.count('family:' + family)
         A = G9.npm(W); Bn = (A != 0).astype(float)
+        ctx.take_variants()
         try:
             a = call(f, A.copy())
         except Exception as e:
@@ -221,6 +225,7 @@ class Pairs:
             b = call(f, Bn.copy())
         except Exception as e:
             b = e
+        tie_variants(case, since_take=True)
         if isinstance(a, Exception) or isinstance(b, Exception):
             if isinstance(a, tolerate) and isinstance(b, tolerate) and type(a) is type(b):
                 ctx.count('both_raise:%s:%s' % (fn, type(a).__name__))     # same (documented-domain) failure on both sides
@@ -230,19 +235,22 @@ class Pairs:
         ctx.check(same(a, b), key, 'result depends on the weights: %r vs %r' % (brief(a), brief(b)), case)
 
     def model(self, fn, line, case, impl):
+        if getattr(self, '_pv', None):
+            case = dict(case, _input_variant=self._pv)
         self.lines.append(line); self.pend.append((fn, case, impl))
 
     def corr(self, fn, kind, line, W, f):
         """correspondence for the routines modelled in Model/Distance.v, EfficiencyLocal.v, Assortativity.v:
         run the implementation now, queue the extracted model on the same input"""
         A = G9.npm(W)
+        self.ctx.take_variants()
         try:
             with np.errstate(all='ignore'):
                 impl = call(f, A.copy())
         except Exception as e:
             return                           # raising inputs are reported by pair()/ignores()
         self.ctx.count('model:' + fn)
-        self.lines.append(line); self.pend.append(('corr:' + kind + ':' + fn, {'fn': fn, 'W': G9.strs(W)}, impl))
+        self.lines.append(line); self.pend.append(('corr:' + kind + ':' + fn, tie_variants({'fn': fn, 'W': G9.strs(W)}, since_take=True), impl))
 
     def corr_binary(self, A, directed):
         """0/1 input: both members of every proved pair are run against their models"""
@@ -267,6 +275,7 @@ class Pairs:
         A = G9.npm(W)
 
         def add(fn, kind, line, f, tolerate=()):
+            self.ctx.take_variants()
             try:
                 impl = call(f, A.copy())
             except tolerate as e:
@@ -274,7 +283,7 @@ class Pairs:
             except Exception:
                 return
             self.ctx.count('model:' + fn)
-            self.lines.append(line); self.pend.append(('ign:' + kind + ':' + fn, {'fn': fn, 'W': G9.strs(W)}, impl))
+            self.lines.append(line); self.pend.append(('ign:' + kind + ':' + fn, tie_variants({'fn': fn, 'W': G9.strs(W)}, since_take=True), impl))
         add('jdegree', 'jdegree', 'jdegree ' + Q, lambda M: tuple(bct.jdegree(M)))
         add('reachdist', 'reachdist', 'reachdist ' + Z8, lambda M: tuple(bct.reachdist(M)))
         add('findwalks', 'findwalks', 'findwalks ' + Z8, lambda M: tuple(bct.findwalks(M)), (IndexError,))
@@ -294,9 +303,11 @@ class Pairs:
         for fl in ((1, 2, 3, 4) if directed else (0,)):
             case = {'pair': 'assortativity_bin:ignores_weights_negative', 'flag': fl, 'W': G9.strs(W)}
             ctx.case(case, nontrivial=any(x < 0 for row in W for x in row)); ctx.count('ignores_negative:assortativity_bin'); ctx.count('family:' + family)
+            ctx.take_variants()
             try:
                 with np.errstate(all='ignore'):
                     a = call(bct.assortativity_bin, A.copy(), fl); b = call(bct.assortativity_bin, Bn.copy(), fl)
+                tie_variants(case, since_take=True)
             except Exception as e:
                 ctx.fail('assortativity_bin:raises', repr(e), case); continue
             ctx.check(same(a, b), 'assortativity_bin:ignores_weights_negative',
@@ -361,7 +372,7 @@ class Pairs:
             ctx.case(case, nontrivial=any(x != 0 for row in A for x in row)); ctx.count('spelling:' + key); ctx.count('family:' + family)
             try:
                 with np.errstate(all='ignore'):
-                    r = call(f, M.copy(), sp)
+                    r = call(f, M.copy(), sp); tie_variants(case)
             except Exception as e:
                 ctx.fail(key + ':raises', repr(e), case); continue
             r = np.asarray(r, dtype=float)
@@ -471,6 +482,8 @@ def run(ctx):
             # symmetric weights of BOTH signs (cuberoot keeps the sign; degrees count every nonzero entry)
             Wsg = [[(-x if (min(i, j) * 5 + max(i, j) * 3 + t) % 3 == 0 else x) for j, x in enumerate(row)] for i, row in enumerate(W)]
             P.symmetric(Wsg, 'signed_sym')
+            if t % 2 == 0:      # links weaker than 1e-8 next to ordinary ones: still links, in both the directed and the undirected routine
+                P.symmetric(G9.rand_und(r, n, dens, G9.mixed_cube_w), 'mixed_magnitude_sym')
             Tf, kind = G9.triangle_free(r, n, G9.cube_w if t % 2 else None)
             P.symmetric(Tf, 'trianglefree_' + kind)
             if not t % 2:
